@@ -22,6 +22,9 @@ In-process correspondence (real function vs Lean model, result must be one of th
           c15.blockstarts incl. the genotype slices by object identity, c15.singleton, c15.force, c15.writeback,
           c15.integrate, c15.assignments, c15.permute, c15.aggregate, c15.cuts, c15.components) and the written VCF
           with the writer model (c15.write).
+  round 10: subinst (real find_subinstances / integrate_sub_results on generated thread matrices + cluster reads <->
+          c15.subinstances, c15.integratehaps), haploid_components <-> c15.haploid, HS text of the written VCF <-> c15.hs,
+          replay of every phase_single_block call through the model's stage order <-> c15.block
 Property oracle (Python, independent of the model) on every in-process result and on the output VCF of real
 `whatshap polyphase` runs on generated polyploid data.
 """
@@ -66,7 +69,8 @@ ASSUMPTIONS = [
     "the likelihood that picks the permutation (scipy binom.pmf) is not modelled: any permutation of alleles_to_insert is admissible",
     "--distrust-genotypes is outside the property; --tag HP output is C09's subject and not run here",
     "the BAM reader reports alleles only at positions of the variants it was asked for (hypothesis of genotype_list_aligned; checked on the real reader in every pipeline run, key reader-contract)",
-    "run_threading returns ploidy haplotypes per block and sub-instance thread sets of one position are disjoint (recorded and checked: c15.writeback `disjoint`)",
+    "run_threading returns ploidy haplotypes per block (sub-instance thread sets of one position are disjoint: theorem subinstances_disjoint_and_inside_block; also recorded and checked: c15.writeback `disjoint`, oracle subinst-overlap)",
+    "haploid sets: hap_cuts[j] start at 0, are strictly increasing and contained in cuts (hypotheses of the two haploid-set theorems; oracles hs-not-interval, hs-name, hs-border-inside-ps on every run)",
     "the writer model is per sample: another sample only decides whether a record passes the 'phased in any sample' gate, which does not change this sample's GT / phased flag / PS",
     "get_optimal_assignments with pre-phasing affiliations (ILP) is not modelled: oracle only (results are permutations)",
 ]
@@ -327,6 +331,7 @@ def run_psi(case):
     finally:
         cp.solve_polyphase_instance, cp.create_genotype_list = saved
     sr = [[(v.position, v.allele) for v in read] for read in superreads]
+    run_psi.hcomps = hcomps
     return comps, sr
 
 
@@ -354,6 +359,11 @@ def check_psi(ctx, case, batch):
     if sr != exp_sr:
         ctx.fail("super-reads differ from the solver's haplotypes on the fully determined positions", case, key="psi-superreads")
     cols = [[haps[h][j] for h in range(k)] for j in range(n)]
+    hcomps = run_psi.hcomps
+    check_haploid(ctx, case, acc, k, comps, hcomps)
+    _, hap_cuts = run_cuts(case["bps"], k, case["B"])
+    batch.append(({"op": "c15.haploid", "acc": acc, "cuts": list(cuts), "hap_cuts": [list(h) for h in hap_cuts], "num_vars": n},
+                  ("plain", case, sorted([int(a), [int(x) for x in b]] for a, b in hcomps.items()))))
     batch.append(({"op": "c15.components", "acc": acc, "cuts": cuts, "cols": cols},
                   ("psi", case, {"dict": sorted([a, b] for a, b in comps.items()),
                                  "phased": sorted({p for r in sr for p, _ in r})})))
@@ -734,6 +744,7 @@ class Recorder:
             cur["top"] = len(rec.solves)
             comps, hcomps, sr = real_psi(readset, table, sample, param, output, timers)
             cur["comps"] = sorted([int(a), int(b)] for a, b in comps.items())
+            cur["hcomps"] = sorted([int(a), [int(x) for x in b]] for a, b in hcomps.items())
             cur["superreads"] = [[[v.position, v.allele] for v in r] for r in sr]
             return comps, hcomps, sr
         self.patch(cp, "phase_single_individual", psi)
@@ -810,8 +821,13 @@ class Recorder:
 
         def fs(allele_matrix, clustering, threads, haplotypes):
             r = real_fs(allele_matrix, clustering, threads, haplotypes)
-            rec.stack[-1]["cur"]["subinst"] = [{"ts": list(ts), "snps": [allele_matrix.globalToLocal(g) for g in subm.getPositions()]}
-                                               for _, ts, subm in r]
+            rec.stack[-1]["cur"]["subinst"] = [{"cid": int(cid), "ts": list(ts),
+                                                "snps": [allele_matrix.globalToLocal(g) for g in subm.getPositions()]}
+                                               for cid, ts, subm in r]
+            rec.stack[-1]["cur"]["find"] = {
+                "threads": [list(t) for t in threads], "haps": [list(h) for h in haplotypes],
+                "creads": [[int(cid), [[int(p) for p, _ in allele_matrix.getRead(x)] for x in clustering[cid]]]
+                           for cid in sorted({c for t in threads for c in t}) if cid < len(clustering)]}
             rec.stack[-1]["cur"]["first_sub_solve"] = len(rec.solves)
             return r
         self.patch(alg, "find_subinstances", fs)
@@ -968,6 +984,24 @@ def run_pipe(ctx, case, sc, vcf, bam, fa, d, batch):
             batch.append(({"op": "c15.components", "acc": top["cols"], "cuts": cu["cuts"], "cols": hcols},
                           ("psi", dict(case, acc=top["cols"], where=sub),
                            {"dict": e["comps"], "phased": sorted({p for r in e["superreads"] for p, _ in r})})))
+            batch.append(({"op": "c15.haploid", "acc": top["cols"], "cuts": cu["cuts"], "hap_cuts": cu["hap_cuts"],
+                           "num_vars": ncol}, ("plain", dict(case, where=sub), e["hcomps"])))
+            check_haploid(ctx, dict(case, where=sub), top["cols"], k, dict(map(tuple, e["comps"])),
+                          {a: b for a, b in e["hcomps"]})
+            if o.get("haploid_sets") and not o.get("prephasing"):
+                hd = {a: b for a, b in e["hcomps"]}
+                calls, raws = [], []
+                for n_, i in enumerate(idx):
+                    fmt = (text_out[i][1] or "").split(":")
+                    vals = text_out[i][2][si].split(":")
+                    raw = "absent" if "HS" not in fmt else (vals[fmt.index("HS")] if fmt.index("HS") < len(vals) else ".")
+                    if raw == "":
+                        ctx.fail(f"{chrom}:{rin[i]['pos'] + 1} {s}: empty HS value in {text_out[i][2][si]!r}", case,
+                                 key="F24-hs-empty-value")
+                    raws.append(raw if raw in ("absent", ".", "") else [int(x) for x in raw.split(",")])
+                    calls.append(["HS" in fmt, bool(got[n_][1]), hd.get(rin[i]["pos"])])
+                batch.append(({"op": "c15.hs", "repaired": True, "ploidy": k, "calls": calls},
+                              ("hs", dict(case, where=sub), raws)))
             # the writer
             batch.append(({"op": "c15.write", "cfg": cfg, "repaired": True, "recs": mrecs, "cols": top["cols"],
                            "haps": hcols, "comps": e["comps"]}, ("write", dict(case, where=sub), got)))
@@ -1040,7 +1074,50 @@ def check_solve_record(ctx, case, e, rec, batch):
             if any(not (0 <= x[0] < nv) for x in b["int_bps"]) or any(a[0] >= c[0] for a, c in zip(b["int_bps"], b["int_bps"][1:])):
                 ctx.fail(f"integrate_sub_results: breakpoint positions {[x[0] for x in b['int_bps']]} in a block of {nv}", case,
                          key="block-breakpoints")
+        fd = b.get("find")
+        if fd:
+            kk = len(fd["haps"])
+            batch.append(({"op": "c15.subinstances", "threads": fd["threads"], "cols": cols_of(fd["haps"], nv), "ploidy": kk,
+                           "creads": fd["creads"]},
+                          ("subinst", dict(case, where=where), sorted([su["cid"], su["ts"], su["snps"]] for su in b["subinst"]))))
+            cells = set()
+            for su in b["subinst"]:
+                for p in su["snps"]:
+                    for t in su["ts"]:
+                        if (p, t) in cells or not (0 <= p < nv and 0 <= t < kk):
+                            ctx.fail(f"sub-instances {b['subinst']} overlap or leave the block ({nv} x {kk})", case,
+                                     key="subinst-overlap")
+                        cells.add((p, t))
+        if fd and "int_before" in b:
+            batch.append(({"op": "c15.integratehaps", "cols": cols_of(b["int_before"], nv),
+                           "pairs": [[su["ts"], su["snps"], cols_of(sr["haps"], len(su["snps"]))]
+                                     for su, sr in zip(b["subinst"], b["sub_results"])]},
+                          ("plain", dict(case, where=where), cols_of(b["int_after"], nv))))
         a = b.get("assign")
+        if fd and f and a and "perm_after" in b and "int_before" in b:
+            # replay of the whole block through the model's stage order, every heuristic = what the real run did
+            kk = len(f["before"])
+            forced, amb = {}, False
+            for p in range(nv):
+                col = tuple(f["before"][h][p] for h in range(kk)); oc = [f["after"][h][p] for h in range(kk)]
+                gv = tuple(sorted(a_ for a_, c in f["gts"][p].items() for _ in range(c)))
+                if forced.setdefault((col, gv), oc) != oc:
+                    amb = True
+            subsolves = {}
+            for su, sr in zip(b["subinst"], b["sub_results"]):
+                key = (len(su["ts"]), tuple(tuple(b["int_before"][h][p] for h in su["ts"]) for p in su["snps"]))
+                val = cols_of(sr["haps"], len(su["snps"]))
+                if subsolves.setdefault(key, val) != val:
+                    amb = True
+            if not amb:
+                batch.append(({"op": "c15.block", "ploidy": kk,
+                               "gts": [sorted(a_ for a_, c in g.items() for _ in range(c)) for g in f["gts"]],
+                               "threads": fd["threads"], "cols0": cols_of(f["before"], nv),
+                               "forced": [[list(c), list(g), o_] for (c, g), o_ in forced.items()], "creads": fd["creads"],
+                               "subsolves": [[k_, [list(x) for x in g], v] for (k_, g), v in subsolves.items()],
+                               "bps": b["perm_bps"], "perms": a["perms"]},
+                              ("plain", dict(case, where=where), cols_of(b["perm_after"], nv))))
+                ctx.dist("pipe_block_replays", 1)
         if a:
             for pm in a["perms"]:
                 if sorted(pm) != list(range(a["ploidy"])):
@@ -1053,6 +1130,148 @@ def check_solve_record(ctx, case, e, rec, batch):
             kk = len(b["perm_before"])
             batch.append(({"op": "c15.permute", "cols": cols_of(b["perm_before"], nv), "bps": b["perm_bps"], "perms": a["perms"]},
                           ("permute", dict(case, where=where), cols_of(b["perm_after"], nv))))
+
+
+
+def check_haploid(ctx, case, acc, k, comps, hcomps):
+    """oracle for the haploid sets (independent of the model): per haplotype the HS names over the accessible positions
+    are intervals named by their first position, and no HS interval crosses a PS border"""
+    rows = [hcomps.get(p) for p in acc]
+    if any(r is None or len(r) != k for r in rows):
+        if any(comps.get(p) is not None and (r is None or len(r) != k) for p, r in zip(acc, rows)):
+            ctx.fail(f"accessible position with a component but without {k} haploid components: {rows}", case,
+                     key="hs-missing")
+        return
+    for j in range(k):
+        names = [r[j] for r in rows]
+        seen = set()
+        for i, nm in enumerate(names):
+            if i == 0 or names[i - 1] != nm:
+                if nm in seen:
+                    ctx.fail(f"haploid set {nm} of haplotype {j} is not contiguous: {names}", case, key="hs-not-interval")
+                if nm != acc[i]:
+                    ctx.fail(f"haploid set of haplotype {j} starting at {acc[i]} is named {nm}", case, key="hs-name")
+                seen.add(nm)
+            if i > 0 and names[i - 1] != nm and comps.get(acc[i]) == comps.get(acc[i - 1]):
+                # (a haploid set may span several phase sets: a cut enters hap_cuts[h] only for the haplotypes of its
+                # breakpoint; the converse is what holds)
+                ctx.fail(f"haploid set border of haplotype {j} at {acc[i]} inside the phase set {comps.get(acc[i])}", case,
+                         key="hs-border-inside-ps")
+
+
+def after_plain(ctx, req, meta, ans):
+    _, case, impl = meta
+    if ans != impl:
+        ctx.disagree(req["op"], case, impl, ans)
+
+
+def gen_subinst(rng):
+    k = rng.choice([2, 3, 3, 4, 4, 5])
+    nv = rng.randrange(2, 9)
+    ncl = rng.randrange(1, 5)
+    row = [rng.randrange(ncl) for _ in range(k)]
+    if rng.random() < 0.5:      # collapsed start: all threads on at most two clusters
+        a_, b_ = rng.randrange(ncl), rng.randrange(ncl)
+        row = [rng.choice([a_, a_, b_]) for _ in range(k)]
+    threads = []
+    for p in range(nv):
+        if rng.random() < 0.3:
+            row = row[:]
+            row[rng.randrange(k)] = rng.randrange(ncl)
+        threads.append(row[:])
+    na = rng.choice([2, 2, 3])
+    haps = [[(rng.randrange(na) if rng.random() < 0.97 else -1) for _ in range(nv)] for _ in range(k)]
+    if rng.random() < 0.3:       # long collapsed stretches
+        for h in range(1, k):
+            if rng.random() < 0.5:
+                haps[h] = haps[0][:]
+    reads = []
+    for i in range(rng.randrange(0, 9)):
+        a = rng.randrange(nv); b = rng.randrange(a, nv)
+        cols = [c for c in range(a, b + 1) if rng.random() < 0.8] or [a]
+        reads.append([rng.choice(row) if rng.random() < 0.7 else rng.randrange(ncl), [[c, rng.randrange(na)] for c in cols]])
+    return {"kind": "subinst", "ploidy": k, "threads": threads, "haps": haps, "reads": reads, "ncl": ncl,
+            "seed": rng.randrange(1 << 30)}
+
+
+def check_subinst(ctx, case, batch):
+    import random
+    from whatshap.core import Read, ReadSet
+    from whatshap.polyphase import PolyphaseResult
+    from whatshap.polyphase.solver import AlleleMatrix
+    from whatshap.polyphase.reorder import find_subinstances, integrate_sub_results
+    k, threads, ncl = case["ploidy"], case["threads"], case["ncl"]
+    nv = len(threads)
+    rs = ReadSet()
+    clustering = [[] for _ in range(ncl + 1)]
+    full = Read("full", 60, 0, 0)
+    for c in range(nv):
+        full.add_variant(10 * (c + 1), 0, 30)
+    rs.add(full)
+    clustering[ncl].append(0)
+    for i, (cid, vs) in enumerate(case["reads"]):
+        r = Read(f"r{i}", 60, 0, 0)
+        for c, a in vs:
+            r.add_variant(10 * (c + 1), a, 30)
+        rs.add(r)
+        clustering[cid].append(i + 1)
+    am = AlleleMatrix(rs)
+    haps = [h[:] for h in case["haps"]]
+    subs = find_subinstances(am, clustering, [t[:] for t in threads], haps)
+    real = [[int(cid), [int(t) for t in ts], [am.globalToLocal(g) for g in subm.getPositions()]] for cid, ts, subm in subs]
+    creads = [[cid, [[int(p) for p, _ in am.getRead(r)] for r in clustering[cid]]] for cid in range(ncl)]
+    cols = cols_of(haps, nv)
+    # oracles
+    cells = set()
+    for cid, ts, snps in real:
+        ok = snps == sorted(set(snps)) and all(0 <= p < nv for p in snps) and ts and all(
+            ts == [t for t in range(k) if threads[p][t] == cid] for p in snps)
+        if not ok:
+            ctx.fail(f"sub-instance {(cid, ts, snps)} is not (cluster, its threads, positions inside the block)", case,
+                     key="subinst-shape")
+        for p in snps:
+            for t in ts:
+                if (p, t) in cells:
+                    ctx.fail(f"two sub-instances both contain haplotype {t} at position {p}: {real}", case,
+                             key="subinst-overlap")
+                cells.add((p, t))
+    batch.append(({"op": "c15.subinstances", "threads": threads, "cols": cols, "ploidy": k, "creads": creads},
+                  ("subinst", case, sorted(real))))
+    # sub-results that obey the sub-genotypes, written back by the real integrate_sub_results
+    r2 = random.Random(case["seed"])
+    results, pairs = [], []
+    for cid, ts, snps in real:
+        rescols = []
+        for p in snps:
+            c = [haps[t][p] for t in ts]
+            r2.shuffle(c)
+            rescols.append(c)
+        results.append(PolyphaseResult([], [], [[rc[j] for rc in rescols] for j in range(len(ts))], []))
+        pairs.append([ts, snps, rescols])
+    after = [h[:] for h in haps]
+    integrate_sub_results(am, subs, results, [t[:] for t in threads], after)
+    acols = cols_of(after, nv)
+    for p in range(nv):
+        if sorted(acols[p]) != sorted(cols[p]):
+            ctx.fail(f"integrate_sub_results changed the allele multiset of column {p}: {cols[p]} -> {acols[p]}", case,
+                     key="integrate-multiset")
+            break
+    batch.append(({"op": "c15.integratehaps", "cols": cols, "pairs": pairs}, ("plain", case, acols)))
+    ctx.dist("subinst_count", min(len(real), 4))
+    return len(real) >= 2
+
+
+def after_subinst(ctx, req, meta, ans):
+    _, case, impl = meta
+    model = sorted(ans.get("subs", []))
+    if model != impl:
+        ctx.disagree("c15.subinstances", case, impl, model)
+
+def after_hs(ctx, req, meta, ans):
+    _, case, impl = meta
+    model = [x if x != "" else "" for x in ans]
+    if model != impl:
+        ctx.disagree("c15.hs", case, impl, model)
 
 
 def after_gluekind(ctx, req, meta, ans):
@@ -1402,10 +1621,11 @@ def check_cli_output(ctx, case, sc, samples, rin, rout, tin, tout, phased_sample
 CHECKS = {"force": (check_force, after_force), "permute": (check_permute, after_exact),
           "cuts": (check_cuts, after_exact), "psi": (check_psi, after_exact),
           "glue": (check_glue, after_glue), "vcfio": (check_vcfio, None), "agg": (check_agg, None),
-          "threads": (check_threads, None), "assign": (check_assign, None)}
+          "threads": (check_threads, None), "assign": (check_assign, None), "subinst": (check_subinst, None)}
 AFTER = {"force": after_force, "permute": after_exact, "cuts": after_exact, "psi": after_exact, "exact": after_exact,
          "glue": after_glue, "blockstarts": after_blockstarts, "readtable": after_readtable, "write": after_write,
-         "gluekind": after_gluekind, "single": after_single, "writeback": after_writeback}
+         "gluekind": after_gluekind, "single": after_single, "writeback": after_writeback, "plain": after_plain,
+         "subinst": after_subinst, "hs": after_hs}
 
 
 def run(ctx):
@@ -1480,6 +1700,7 @@ def run(ctx):
         one(c15_glue.gen_agg(rng))
         one(c15_glue.gen_threads(rng))
         one(c15_glue.gen_assign(rng))
+        one(gen_subinst(rng))
         if i % 3 == 0:
             one(c15_glue.gen_vcfio(rng))
     flush()
